@@ -10,7 +10,11 @@
    cooperative?) steps, predicates are descriptors, listeners append to the trace.
    Time is absolute Z nanoseconds; cancellation sources are Timeout timers and one
    optional external context cancellation, fired in chronological order.
-   Hedge is modelled separately (Model/Hedge.v).  No proofs here. *)
+   A hedge policy is modelled when it is the innermost policy (directly around the function): its
+   attempts run in the background ([w_bg]) while the main line of the execution goes on, and
+   their completions are events of the same chronological loop ([advance]) as the cancellation
+   sources.  (Model/Hedge.v is the stand-alone timed model of the hedge loop used by C09.)
+   No proofs here. *)
 From FS Require Export Model.Classify Model.Breaker Model.RateLimiter.
 
 (* ---------------- policies -------------------------------------------- *)
@@ -24,6 +28,8 @@ Record fb_cfg := { fb_fpol : fpolicy; fb_kind_of : fb_kind }.
 
 Record cache_cfg := { ca_key : Z (* 0 = "" *); ca_conds : list cond }.
 
+Record hedge_cfg := { hg_max : nat; hg_delay : Z; hg_cancel : list cond (* cancel conditions after Build() *) }.
+
 Inductive policy :=
   | PRetry (c : retry_cfg)
   | PBreaker (inst : nat)
@@ -31,13 +37,15 @@ Inductive policy :=
   | PBulkhead (inst : nat) (maxwait : Z)
   | PTimeout (limit : Z)
   | PFallback (c : fb_cfg)
-  | PCache (inst : nat) (c : cache_cfg).
+  | PCache (inst : nat) (c : cache_cfg)
+  | PHedge (c : hedge_cfg)          (* modelled as the innermost policy only *).
 
 (* ---------------- the wrapped function --------------------------------- *)
 
 Record fn_step := {
   fs_out : outcome; fs_dur : Z;
-  fs_coop : option outcome (* Some o: returns o as soon as its execution is cancelled *) }.
+  fs_coop : option outcome (* Some o: once its execution is cancelled it returns o ... *);
+  fs_lag : Z (* ... this long after the cancellation *) }.
 
 (* ---------------- events (listeners and function entry/exit) ----------- *)
 
@@ -49,12 +57,13 @@ Inductive evk :=
   | KCacheHit | KCacheMiss | KCached
   | KRateExceeded | KFull
   | KBreaker
+  | KHedge
   | KExecSuccess | KExecFailure | KExecDone.
 
 (* what a listener can read from the execution it is handed *)
 Record event := {
   e_kind : evk; e_pos : nat (* stack position of the policy, 0 = outermost; function = stack length *);
-  e_attempts : Z; e_retries : Z; e_executions : Z;
+  e_attempts : Z; e_retries : Z; e_hedges : Z; e_executions : Z;
   e_out : outcome (* LastResult/LastError, or Result/Error of a done event *);
   e_aux : Z (* scheduled delay; breaker event: old*16+new*4+tag *) ;
   e_time : Z }.
@@ -74,9 +83,19 @@ Record rstate := { rs_failed : Z; rs_exceeded : bool }.
 
 Inductive ctxkey := CKNone | CKStr (k : Z) | CKOther.
 
+(* a hedge attempt running in the background: its function returns [bg_out] at [bg_finish] *)
+Record bgrun := {
+  bg_grp : nat; bg_idx : nat; bg_copy : nat; bg_pos : nat; bg_finish : Z; bg_out : outcome;
+  bg_coop : option (outcome * Z) (* not yet interrupted: returns the outcome this long after its execution is cancelled *) }.
+
+(* the hedged run in progress (hedgeexecutor.go: resultCount, resultSent, resultChan) *)
+Record hstate := {
+  hs_grp : nat; hs_max : nat; hs_cond : list cond; hs_count : nat; hs_sent : bool;
+  hs_acc : option (nat * outcome) (* accepted result waiting in the channel: attempt index, outcome *) }.
+
 Record world := {
   w_now : Z; w_start : Z;
-  w_attempts : Z; w_retries : Z; w_executions : Z;
+  w_attempts : Z; w_retries : Z; w_executions : Z; w_hedges : Z;
   w_cell : option presult;                    (* shared canceledResult *)
   w_seq : Z;
   w_scopes : list scope;                      (* index = scope id; 0 = the caller's context *)
@@ -90,6 +109,8 @@ Record world := {
   w_retry : list (nat * rstate);              (* per stack position, per execution *)
   w_script : list fn_step;
   w_trace : list event;                       (* newest first *)
+  w_bg : list bgrun;                          (* hedge attempts still running *)
+  w_hs : hstate;
   w_oof : bool }.                             (* out of fuel *)
 
 (* generic list update *)
@@ -108,56 +129,74 @@ Definition get_copy (w : world) (c : nat) : copyst := nth c (w_copies w) dflt_co
 
 (* record update helpers (explicit, so that proofs can reason by projection) *)
 Definition set_now (w : world) (t : Z) : world :=
-  {| w_now := t; w_start := w_start w; w_attempts := w_attempts w; w_retries := w_retries w; w_executions := w_executions w;
-     w_cell := w_cell w; w_seq := w_seq w; w_scopes := w_scopes w; w_copies := w_copies w; w_ext := w_ext w; w_ctxkey := w_ctxkey w;
+  {| w_now := t; w_start := w_start w; w_attempts := w_attempts w; w_retries := w_retries w;
+     w_executions := w_executions w; w_hedges := w_hedges w; w_cell := w_cell w; w_seq := w_seq w;
+     w_scopes := w_scopes w; w_copies := w_copies w; w_ext := w_ext w; w_ctxkey := w_ctxkey w;
      w_breakers := w_breakers w; w_limiters := w_limiters w; w_bulkheads := w_bulkheads w; w_caches := w_caches w;
-     w_retry := w_retry w; w_script := w_script w; w_trace := w_trace w; w_oof := w_oof w |}.
+     w_retry := w_retry w; w_script := w_script w; w_trace := w_trace w; w_bg := w_bg w; w_hs := w_hs w;
+     w_oof := w_oof w |}.
 Definition set_counters (w : world) (a r x : Z) : world :=
   {| w_now := w_now w; w_start := w_start w; w_attempts := a; w_retries := r; w_executions := x;
-     w_cell := w_cell w; w_seq := w_seq w; w_scopes := w_scopes w; w_copies := w_copies w; w_ext := w_ext w; w_ctxkey := w_ctxkey w;
-     w_breakers := w_breakers w; w_limiters := w_limiters w; w_bulkheads := w_bulkheads w; w_caches := w_caches w;
-     w_retry := w_retry w; w_script := w_script w; w_trace := w_trace w; w_oof := w_oof w |}.
+     w_hedges := w_hedges w; w_cell := w_cell w; w_seq := w_seq w; w_scopes := w_scopes w; w_copies := w_copies w;
+     w_ext := w_ext w; w_ctxkey := w_ctxkey w; w_breakers := w_breakers w; w_limiters := w_limiters w;
+     w_bulkheads := w_bulkheads w; w_caches := w_caches w; w_retry := w_retry w; w_script := w_script w;
+     w_trace := w_trace w; w_bg := w_bg w; w_hs := w_hs w; w_oof := w_oof w |}.
 Definition set_cell (w : world) (c : option presult) : world :=
-  {| w_now := w_now w; w_start := w_start w; w_attempts := w_attempts w; w_retries := w_retries w; w_executions := w_executions w;
-     w_cell := c; w_seq := w_seq w; w_scopes := w_scopes w; w_copies := w_copies w; w_ext := w_ext w; w_ctxkey := w_ctxkey w;
-     w_breakers := w_breakers w; w_limiters := w_limiters w; w_bulkheads := w_bulkheads w; w_caches := w_caches w;
-     w_retry := w_retry w; w_script := w_script w; w_trace := w_trace w; w_oof := w_oof w |}.
+  {| w_now := w_now w; w_start := w_start w; w_attempts := w_attempts w; w_retries := w_retries w;
+     w_executions := w_executions w; w_hedges := w_hedges w; w_cell := c; w_seq := w_seq w; w_scopes := w_scopes w;
+     w_copies := w_copies w; w_ext := w_ext w; w_ctxkey := w_ctxkey w; w_breakers := w_breakers w;
+     w_limiters := w_limiters w; w_bulkheads := w_bulkheads w; w_caches := w_caches w; w_retry := w_retry w;
+     w_script := w_script w; w_trace := w_trace w; w_bg := w_bg w; w_hs := w_hs w; w_oof := w_oof w |}.
 Definition set_scopes (w : world) (s : list scope) (seq : Z) (ext : option (Z * err)) : world :=
-  {| w_now := w_now w; w_start := w_start w; w_attempts := w_attempts w; w_retries := w_retries w; w_executions := w_executions w;
-     w_cell := w_cell w; w_seq := seq; w_scopes := s; w_copies := w_copies w; w_ext := ext; w_ctxkey := w_ctxkey w;
-     w_breakers := w_breakers w; w_limiters := w_limiters w; w_bulkheads := w_bulkheads w; w_caches := w_caches w;
-     w_retry := w_retry w; w_script := w_script w; w_trace := w_trace w; w_oof := w_oof w |}.
+  {| w_now := w_now w; w_start := w_start w; w_attempts := w_attempts w; w_retries := w_retries w;
+     w_executions := w_executions w; w_hedges := w_hedges w; w_cell := w_cell w; w_seq := seq; w_scopes := s;
+     w_copies := w_copies w; w_ext := ext; w_ctxkey := w_ctxkey w; w_breakers := w_breakers w;
+     w_limiters := w_limiters w; w_bulkheads := w_bulkheads w; w_caches := w_caches w; w_retry := w_retry w;
+     w_script := w_script w; w_trace := w_trace w; w_bg := w_bg w; w_hs := w_hs w; w_oof := w_oof w |}.
 Definition set_copies (w : world) (c : list copyst) : world :=
-  {| w_now := w_now w; w_start := w_start w; w_attempts := w_attempts w; w_retries := w_retries w; w_executions := w_executions w;
-     w_cell := w_cell w; w_seq := w_seq w; w_scopes := w_scopes w; w_copies := c; w_ext := w_ext w; w_ctxkey := w_ctxkey w;
-     w_breakers := w_breakers w; w_limiters := w_limiters w; w_bulkheads := w_bulkheads w; w_caches := w_caches w;
-     w_retry := w_retry w; w_script := w_script w; w_trace := w_trace w; w_oof := w_oof w |}.
+  {| w_now := w_now w; w_start := w_start w; w_attempts := w_attempts w; w_retries := w_retries w;
+     w_executions := w_executions w; w_hedges := w_hedges w; w_cell := w_cell w; w_seq := w_seq w;
+     w_scopes := w_scopes w; w_copies := c; w_ext := w_ext w; w_ctxkey := w_ctxkey w; w_breakers := w_breakers w;
+     w_limiters := w_limiters w; w_bulkheads := w_bulkheads w; w_caches := w_caches w; w_retry := w_retry w;
+     w_script := w_script w; w_trace := w_trace w; w_bg := w_bg w; w_hs := w_hs w; w_oof := w_oof w |}.
 Definition set_insts (w : world) (b : list (bcfg * bstate (S := stats))) (l : list (lcfg * Z * lstate))
     (k : list (Z * Z)) (c : list (list (Z * Z))) : world :=
-  {| w_now := w_now w; w_start := w_start w; w_attempts := w_attempts w; w_retries := w_retries w; w_executions := w_executions w;
-     w_cell := w_cell w; w_seq := w_seq w; w_scopes := w_scopes w; w_copies := w_copies w; w_ext := w_ext w; w_ctxkey := w_ctxkey w;
-     w_breakers := b; w_limiters := l; w_bulkheads := k; w_caches := c;
-     w_retry := w_retry w; w_script := w_script w; w_trace := w_trace w; w_oof := w_oof w |}.
+  {| w_now := w_now w; w_start := w_start w; w_attempts := w_attempts w; w_retries := w_retries w;
+     w_executions := w_executions w; w_hedges := w_hedges w; w_cell := w_cell w; w_seq := w_seq w;
+     w_scopes := w_scopes w; w_copies := w_copies w; w_ext := w_ext w; w_ctxkey := w_ctxkey w; w_breakers := b;
+     w_limiters := l; w_bulkheads := k; w_caches := c; w_retry := w_retry w; w_script := w_script w;
+     w_trace := w_trace w; w_bg := w_bg w; w_hs := w_hs w; w_oof := w_oof w |}.
 Definition set_retry (w : world) (r : list (nat * rstate)) : world :=
-  {| w_now := w_now w; w_start := w_start w; w_attempts := w_attempts w; w_retries := w_retries w; w_executions := w_executions w;
-     w_cell := w_cell w; w_seq := w_seq w; w_scopes := w_scopes w; w_copies := w_copies w; w_ext := w_ext w; w_ctxkey := w_ctxkey w;
+  {| w_now := w_now w; w_start := w_start w; w_attempts := w_attempts w; w_retries := w_retries w;
+     w_executions := w_executions w; w_hedges := w_hedges w; w_cell := w_cell w; w_seq := w_seq w;
+     w_scopes := w_scopes w; w_copies := w_copies w; w_ext := w_ext w; w_ctxkey := w_ctxkey w;
      w_breakers := w_breakers w; w_limiters := w_limiters w; w_bulkheads := w_bulkheads w; w_caches := w_caches w;
-     w_retry := r; w_script := w_script w; w_trace := w_trace w; w_oof := w_oof w |}.
+     w_retry := r; w_script := w_script w; w_trace := w_trace w; w_bg := w_bg w; w_hs := w_hs w; w_oof := w_oof w |}.
 Definition set_script (w : world) (s : list fn_step) : world :=
-  {| w_now := w_now w; w_start := w_start w; w_attempts := w_attempts w; w_retries := w_retries w; w_executions := w_executions w;
-     w_cell := w_cell w; w_seq := w_seq w; w_scopes := w_scopes w; w_copies := w_copies w; w_ext := w_ext w; w_ctxkey := w_ctxkey w;
+  {| w_now := w_now w; w_start := w_start w; w_attempts := w_attempts w; w_retries := w_retries w;
+     w_executions := w_executions w; w_hedges := w_hedges w; w_cell := w_cell w; w_seq := w_seq w;
+     w_scopes := w_scopes w; w_copies := w_copies w; w_ext := w_ext w; w_ctxkey := w_ctxkey w;
      w_breakers := w_breakers w; w_limiters := w_limiters w; w_bulkheads := w_bulkheads w; w_caches := w_caches w;
-     w_retry := w_retry w; w_script := s; w_trace := w_trace w; w_oof := w_oof w |}.
+     w_retry := w_retry w; w_script := s; w_trace := w_trace w; w_bg := w_bg w; w_hs := w_hs w; w_oof := w_oof w |}.
 Definition set_trace (w : world) (t : list event) : world :=
-  {| w_now := w_now w; w_start := w_start w; w_attempts := w_attempts w; w_retries := w_retries w; w_executions := w_executions w;
-     w_cell := w_cell w; w_seq := w_seq w; w_scopes := w_scopes w; w_copies := w_copies w; w_ext := w_ext w; w_ctxkey := w_ctxkey w;
+  {| w_now := w_now w; w_start := w_start w; w_attempts := w_attempts w; w_retries := w_retries w;
+     w_executions := w_executions w; w_hedges := w_hedges w; w_cell := w_cell w; w_seq := w_seq w;
+     w_scopes := w_scopes w; w_copies := w_copies w; w_ext := w_ext w; w_ctxkey := w_ctxkey w;
      w_breakers := w_breakers w; w_limiters := w_limiters w; w_bulkheads := w_bulkheads w; w_caches := w_caches w;
-     w_retry := w_retry w; w_script := w_script w; w_trace := t; w_oof := w_oof w |}.
+     w_retry := w_retry w; w_script := w_script w; w_trace := t; w_bg := w_bg w; w_hs := w_hs w; w_oof := w_oof w |}.
+Definition set_hedge (w : world) (h : Z) (bg : list bgrun) (hs : hstate) : world :=
+  {| w_now := w_now w; w_start := w_start w; w_attempts := w_attempts w; w_retries := w_retries w;
+     w_executions := w_executions w; w_hedges := h; w_cell := w_cell w; w_seq := w_seq w; w_scopes := w_scopes w;
+     w_copies := w_copies w; w_ext := w_ext w; w_ctxkey := w_ctxkey w; w_breakers := w_breakers w;
+     w_limiters := w_limiters w; w_bulkheads := w_bulkheads w; w_caches := w_caches w; w_retry := w_retry w;
+     w_script := w_script w; w_trace := w_trace w; w_bg := bg; w_hs := hs; w_oof := w_oof w |}.
 Definition set_oof (w : world) : world :=
-  {| w_now := w_now w; w_start := w_start w; w_attempts := w_attempts w; w_retries := w_retries w; w_executions := w_executions w;
-     w_cell := w_cell w; w_seq := w_seq w; w_scopes := w_scopes w; w_copies := w_copies w; w_ext := w_ext w; w_ctxkey := w_ctxkey w;
+  {| w_now := w_now w; w_start := w_start w; w_attempts := w_attempts w; w_retries := w_retries w;
+     w_executions := w_executions w; w_hedges := w_hedges w; w_cell := w_cell w; w_seq := w_seq w;
+     w_scopes := w_scopes w; w_copies := w_copies w; w_ext := w_ext w; w_ctxkey := w_ctxkey w;
      w_breakers := w_breakers w; w_limiters := w_limiters w; w_bulkheads := w_bulkheads w; w_caches := w_caches w;
-     w_retry := w_retry w; w_script := w_script w; w_trace := w_trace w; w_oof := true |}.
+     w_retry := w_retry w; w_script := w_script w; w_trace := w_trace w; w_bg := w_bg w; w_hs := w_hs w;
+     w_oof := true |}.
 
 (* ---------------- contexts and cancellation ---------------------------- *)
 
@@ -207,7 +246,7 @@ Definition mark_done (w : world) (s : nat) (e : err) : world :=
 Definition snapshot (w : world) (c : nat) : outcome := (fst (cp_last (get_copy w c)), last_error w c).
 
 Definition emit (w : world) (k : evk) (pos : nat) (o : outcome) (aux : Z) : world :=
-  set_trace w ({| e_kind := k; e_pos := pos; e_attempts := w_attempts w; e_retries := w_retries w;
+  set_trace w ({| e_kind := k; e_pos := pos; e_attempts := w_attempts w; e_retries := w_retries w; e_hedges := w_hedges w;
                   e_executions := w_executions w; e_out := o; e_aux := aux; e_time := w_now w |} :: w_trace w).
 
 (* the Timeout's timer callback (timeoutexecutor.go:31-47) followed by execution.Cancel *)
@@ -264,34 +303,111 @@ Definition sources_at (w : world) (t : Z) : nat :=
   length (filter (fun sc => match sc_deadline sc with Some d => d =? t | None => false end) (w_scopes w))
   + (match w_ext w with Some (t', _) => if t' =? t then 1 else 0 | None => 0 end).
 
-(* [w_oof] doubles as the "schedule-dependent" flag: it is raised when two cancellation sources
-   are due at the same instant or one is due exactly when the current wait ends (Go's select /
-   timer goroutines may then go either way; such runs are excluded from comparisons). *)
-Fixpoint advance (fuel : nat) (w : world) (t_end : Z) (intr : option nat) : bool * world :=
+(* ---------------- background hedge attempts ----------------------------- *)
+
+Definition is_some {A} (o : option A) : bool := match o with Some _ => true | None => false end.
+
+Fixpoint bg_earliest (l : list bgrun) : option bgrun :=
+  match l with
+  | [] => None
+  | b :: l' => match bg_earliest l' with
+               | Some b' => if bg_finish b' <? bg_finish b then Some b' else Some b
+               | None => Some b
+               end
+  end.
+
+Definition bg_same (a b : bgrun) : bool := Nat.eqb (bg_grp a) (bg_grp b) && Nat.eqb (bg_idx a) (bg_idx b).
+Definition bg_remove (b : bgrun) (l : list bgrun) : list bgrun := filter (fun x => negb (bg_same x b)) l.
+Definition bg_count_at (l : list bgrun) (t : Z) : nat := length (filter (fun b => bg_finish b =? t) l).
+
+(* the attempt's goroutine after its function returned (executor.go outerFn: record; hedgeexecutor.go:46-53) *)
+Definition finish_bg (w : world) (b : bgrun) : world :=
+  let w1 := set_hedge w (w_hedges w) (bg_remove b (w_bg w)) (w_hs w) in
+  let w2 := set_counters w1 (w_attempts w1) (w_retries w1) (w_executions w1 + 1) in
+  let w3 := emit w2 KFnEnd (bg_pos b) (bg_out b) 0 in
+  let hs := w_hs w3 in
+  if Nat.eqb (bg_grp b) (hs_grp hs) then
+    let cnt := S (hs_count hs) in
+    let take := (Nat.eqb cnt (S (hs_max hs)) || is_abortable (hs_cond hs) (bg_out b)) && negb (hs_sent hs) in
+    set_hedge w3 (w_hedges w3) (w_bg w3)
+      {| hs_grp := hs_grp hs; hs_max := hs_max hs; hs_cond := hs_cond hs; hs_count := cnt; hs_sent := hs_sent hs || take;
+         hs_acc := if take then Some (bg_idx b, bg_out b) else hs_acc hs |}
+  else w3.
+
+(* cooperative attempts whose execution has just been cancelled will return after their lag; a cancellation at the
+   very instant such an attempt returns anyway, or a zero lag, is schedule-dependent *)
+Definition refresh_bg (w : world) : world :=
+  let hit (b : bgrun) := is_some (bg_coop b) && is_some (copy_err w (bg_copy b)) in
+  let tie := existsb (fun b => hit b && ((w_now w =? bg_finish b)
+                                         || match bg_coop b with Some (_, lag) => lag <=? 0 | None => false end)) (w_bg w) in
+  let bg' := map (fun b => match bg_coop b with
+                           | Some (o, lag) =>
+                               if hit b && (w_now w <? bg_finish b)
+                               then {| bg_grp := bg_grp b; bg_idx := bg_idx b; bg_copy := bg_copy b; bg_pos := bg_pos b;
+                                       bg_finish := w_now w + lag; bg_out := o; bg_coop := None |}
+                               else b
+                           | None => b
+                           end) (w_bg w) in
+  let w1 := set_hedge w (w_hedges w) bg' (w_hs w) in
+  if tie then set_oof w1 else w1.
+
+(* ---------------- the chronological loop -------------------------------- *)
+
+Definition due (t : Z) (t_end : option Z) : bool := match t_end with Some e => t <=? e | None => true end.
+Definition at_end (t : Z) (t_end : option Z) : bool := match t_end with Some e => t =? e | None => false end.
+Definition settle (w : world) (t_end : option Z) : world :=
+  match t_end with Some e => set_now w (Z.max (w_now w) e) | None => w end.
+
+(* [w_oof] doubles as the "schedule-dependent" flag: it is raised when two events (cancellation sources,
+   returns of background attempts) are due at the same instant or one is due exactly when the current wait ends
+   (Go's select / timer goroutines may then go either way; such runs are excluded from comparisons).
+   [intr]: the wait ends when this copy is cancelled; [acc]: it ends when the hedged run has an accepted result. *)
+Fixpoint advance (fuel : nat) (w : world) (t_end : option Z) (intr : option nat) (acc : bool) : bool * world :=
   let interrupted :=
     match intr with Some c => match copy_err w c with Some _ => true | None => false end | None => false end in
   if interrupted then (true, w)
+  else if acc && is_some (hs_acc (w_hs w)) then (false, w)
   else
     match fuel with
-    | O => (false, set_now w (Z.max (w_now w) t_end))
+    | O => (false, settle w t_end)
     | S fuel' =>
-        match next_timer w with
-        | Some (t, src) =>
-            if t <=? t_end then
-              let w0 := if (t =? t_end) || Nat.ltb 1 (sources_at w t) then set_oof w else w in
-              let w1 := set_now w0 (Z.max (w_now w0) t) in
-              let w2 := match src with
-                        | Some s => fire_timeout w1 s
-                        | None => match w_ext w with Some (_, e) => fire_ext w1 e | None => w1 end
+        let nt := next_timer w in
+        let bg_first := match bg_earliest (w_bg w), nt with
+                        | Some b, Some (t, _) => bg_finish b <? t
+                        | Some _, None => true
+                        | None, _ => false
                         end in
-              advance fuel' w2 t_end intr
-            else (false, set_now w (Z.max (w_now w) t_end))
-        | None => (false, set_now w (Z.max (w_now w) t_end))
-        end
+        if bg_first then
+          match bg_earliest (w_bg w) with
+          | Some b =>
+              let t := bg_finish b in
+              if due t t_end then
+                let w0 := if at_end t t_end || Nat.ltb 1 (bg_count_at (w_bg w) t) then set_oof w else w in
+                let w1 := set_now w0 (Z.max (w_now w0) t) in
+                advance fuel' (finish_bg w1 b) t_end intr acc
+              else (false, settle w t_end)
+          | None => (false, settle w t_end)
+          end
+        else
+          match nt with
+          | Some (t, src) =>
+              if due t t_end then
+                let w0 := if at_end t t_end || Nat.ltb 1 (sources_at w t) || Nat.ltb 0 (bg_count_at (w_bg w) t) then set_oof w else w in
+                let w1 := set_now w0 (Z.max (w_now w0) t) in
+                let w2 := match src with
+                          | Some s => fire_timeout w1 s
+                          | None => match w_ext w with Some (_, e) => fire_ext w1 e | None => w1 end
+                          end in
+                advance fuel' (refresh_bg w2) t_end intr acc
+              else (false, settle w t_end)
+          | None => (false, settle w t_end)
+          end
     end.
 
+Definition wait_fuel (w : world) : nat := 2 + length (w_scopes w) + length (w_bg w).
+
 Definition wait (w : world) (dur : Z) (intr : option nat) : bool * world :=
-  advance (2 + length (w_scopes w)) w (w_now w + dur) intr.
+  advance (wait_fuel w) w (Some (w_now w + dur)) intr false.
 
 (* ---------------- layers ------------------------------------------------ *)
 
@@ -304,14 +420,19 @@ Definition all_true (o : outcome) : presult :=
 Definition ev_with_result (w : world) (c : nat) (k : evk) (pos : nat) (r : presult) : world :=
   emit w k pos (pr_res r, match pr_err r with Some e => Some e | None => copy_err w c end) 0.
 
+Definition next_step (w : world) : fn_step :=
+  match w_script w with s :: _ => s | [] => {| fs_out := (0, None); fs_dur := 0; fs_coop := None; fs_lag := 0 |} end.
+Definition rest_script (w : world) : list fn_step := match w_script w with _ :: (_ :: _) as t => t | l => l end.
+
 (* the user's function (executor.go outerFn) *)
 Definition fn_layer (pos : nat) : layer := fun c w =>
-  let st := match w_script w with s :: _ => s | [] => {| fs_out := (0, None); fs_dur := 0; fs_coop := None |} end in
-  let w0 := set_script w (match w_script w with _ :: (_ :: _) as t => t | l => l end) in
+  let st := next_step w in
+  let w0 := set_script w (rest_script w) in
   let w1 := emit w0 KFnStart pos (snapshot w0 c) 0 in
   let '(o, w2) :=
     match fs_coop st with
-    | Some co => let '(i, w') := wait w1 (fs_dur st) (Some c) in ((if i then co else fs_out st), w')
+    | Some co => let '(i, w') := wait w1 (fs_dur st) (Some c) in
+                 if i then let '(_, w'') := wait w' (fs_lag st) None in (co, w'') else (fs_out st, w')
     | None => let '(_, w') := wait w1 (fs_dur st) None in (fs_out st, w')
     end in
   let w3 := set_counters w2 (w_attempts w2) (w_retries w2) (w_executions w2 + 1) in
@@ -524,9 +645,78 @@ Definition cache_layer (pos inst : nat) (cfg : cache_cfg) (inner : layer) : laye
       else (r, w2)
   end.
 
+(* hedge, directly around the function (hedgepolicy/hedgeexecutor.go).  Attempt k runs on its own cancellable copy of
+   the execution; the main loop waits for an accepted result, the hedge delay (while hedges remain) or the
+   cancellation of its own execution. *)
+Definition cancel_copy (w : world) (cs : nat * nat) : world :=
+  match copy_err w (fst cs) with
+  | Some _ => w                                         (* execution.Cancel: already cancelled *)
+  | None => mark_done (set_cell w None) (snd cs) ECtxCanceled
+  end.
+
+Fixpoint cancel_others (w : world) (started : list (nat * nat)) (i winner : nat) : world :=
+  match started with
+  | [] => w
+  | cs :: rest => cancel_others (if Nat.eqb i winner then w else cancel_copy w cs) rest (S i) winner
+  end.
+
+Definition clear_acc (w : world) : world :=
+  let hs := w_hs w in
+  set_hedge w (w_hedges w) (w_bg w)
+    {| hs_grp := hs_grp hs; hs_max := hs_max hs; hs_cond := hs_cond hs; hs_count := hs_count hs; hs_sent := hs_sent hs; hs_acc := None |}.
+
+Fixpoint hedge_loop (fuel : nat) (cfg : hedge_cfg) (pos total : nat) (c : nat) (k : nat) (started : list (nat * nat)) (w : world)
+  : presult * world :=
+  match fuel with
+  | O => (failure_result EOther, set_oof w)
+  | S fuel' =>
+      let cp := get_copy w c in
+      let s := length (w_scopes w) in
+      let c' := length (w_copies w) in
+      let w1 := set_scopes w (w_scopes w ++ [ {| sc_deadline := None; sc_fired := false; sc_done := None; sc_copy := c'; sc_pos := pos |} ])
+                           (w_seq w) (w_ext w) in
+      let w2 := set_copies w1 (w_copies w1 ++ [ {| cp_chain := s :: cp_chain cp; cp_last := cp_last cp; cp_start := cp_start cp |} ]) in
+      (* CopyForHedge + OnHedge *)
+      let w3 := match k with
+                | O => w2
+                | S _ =>
+                    let w' := set_hedge (set_counters w2 (w_attempts w2 + 1) (w_retries w2) (w_executions w2))
+                                        (w_hedges w2 + 1) (w_bg w2) (w_hs w2) in
+                    emit w' KHedge pos (snapshot w' c') 0
+                end in
+      (* go innerFn(hedgeExec): the function starts on the copy *)
+      let st := next_step w3 in
+      let w4 := set_script w3 (rest_script w3) in
+      let w5 := emit w4 KFnStart total (snapshot w4 c') (match k with O => 0 | S _ => 1 end) in
+      let b := {| bg_grp := hs_grp (w_hs w5); bg_idx := k; bg_copy := c'; bg_pos := total; bg_finish := w_now w5 + fs_dur st;
+                  bg_out := fs_out st; bg_coop := match fs_coop st with Some o => Some (o, fs_lag st) | None => None end |} in
+      let w6 := refresh_bg (set_hedge w5 (w_hedges w5) (b :: w_bg w5) (w_hs w5)) in
+      let started' := started ++ [(c', s)] in
+      let t_end := if Nat.ltb k (hg_max cfg) then Some (w_now w6 + hg_delay cfg) else None in
+      let '(_, w7) := advance (wait_fuel w6) w6 t_end (Some c) true in
+      match is_canceled w7 c with
+      | Some cr => (cr, w7)
+      | None =>
+          match hs_acc (w_hs w7) with
+          | Some (idx, out) => (all_true out, refresh_bg (cancel_others (clear_acc w7) started' 0 idx))
+          | None =>
+              match t_end with
+              | Some _ => hedge_loop fuel' cfg pos total c (S k) started' w7
+              | None => (failure_result EOther, set_oof w7)
+              end
+          end
+      end
+  end.
+
+Definition hedge_layer (pos total : nat) (cfg : hedge_cfg) : layer := fun c w =>
+  let hs := w_hs w in
+  let w0 := set_hedge w (w_hedges w) (w_bg w)
+              {| hs_grp := S (hs_grp hs); hs_max := hg_max cfg; hs_cond := hg_cancel cfg; hs_count := 0; hs_sent := false; hs_acc := None |} in
+  hedge_loop (S (S (hg_max cfg))) cfg pos total c 0 [] w0.
+
 (* ---------------- composition (executor.go execute) --------------------- *)
 
-Definition apply_policy (fuel : nat) (pos : nat) (p : policy) (inner : layer) : layer :=
+Definition apply_policy (fuel : nat) (pos total : nat) (p : policy) (inner : layer) : layer :=
   match p with
   | PRetry cfg => fun c w => fst (retry_loop fuel cfg pos inner c w)
   | PBreaker i => breaker_layer pos i inner
@@ -535,13 +725,14 @@ Definition apply_policy (fuel : nat) (pos : nat) (p : policy) (inner : layer) : 
   | PTimeout l => timeout_layer pos l inner
   | PFallback cfg => fallback_layer pos cfg inner
   | PCache i cfg => cache_layer pos i cfg inner
+  | PHedge cfg => hedge_layer pos total cfg         (* innermost: the function is run by the hedge attempts *)
   end.
 
 (* the reverse loop of execute: policies[len-1] applied first (innermost) *)
 Fixpoint compose (fuel : nat) (pos : nat) (stack : list policy) (total : nat) : layer :=
   match stack with
   | [] => fn_layer total
-  | p :: rest => apply_policy fuel pos p (compose fuel (S pos) rest total)
+  | p :: rest => apply_policy fuel pos total p (compose fuel (S pos) rest total)
   end.
 
 Definition execute (fuel : nat) (stack : list policy) (w : world) : presult * world :=
@@ -550,11 +741,28 @@ Definition execute (fuel : nat) (stack : list policy) (w : world) : presult * wo
   let w2 := if pr_all r then emit w1 KExecSuccess 0 o 0 else emit w1 KExecFailure 0 o 0 in
   (r, emit w2 KExecDone 0 o 0).
 
+(* hedge attempts still running when the execution returns go on to their end (the caller's context stays as it is) *)
+Definition drain (w : world) : world :=
+  match w_bg w with
+  | [] => w
+  | _ => snd (advance (wait_fuel w) (set_scopes w (w_scopes w) (w_seq w) None) None None false)
+  end.
+
+(* the modelled placement of a hedge policy *)
+Fixpoint hedge_innermost (stack : list policy) : bool :=
+  match stack with
+  | [] => true
+  | [_] => true
+  | PHedge _ :: _ => false
+  | _ :: rest => hedge_innermost rest
+  end.
+
 (* a fresh execution starting at [now] on the given policy instances *)
 Definition fresh_world (now : Z) (ext : option (Z * err)) (key : ctxkey)
     (b : list (bcfg * bstate (S := stats))) (l : list (lcfg * Z * lstate)) (k : list (Z * Z)) (c : list (list (Z * Z)))
     (script : list fn_step) : world :=
-  {| w_now := now; w_start := now; w_attempts := 1; w_retries := 0; w_executions := 0; w_cell := None; w_seq := 0;
+  {| w_now := now; w_start := now; w_attempts := 1; w_retries := 0; w_executions := 0; w_hedges := 0; w_cell := None; w_seq := 0;
      w_scopes := [dflt_scope]; w_copies := [ {| cp_chain := [0%nat]; cp_last := (0, None); cp_start := now |} ];
      w_ext := ext; w_ctxkey := key; w_breakers := b; w_limiters := l; w_bulkheads := k; w_caches := c;
-     w_retry := []; w_script := script; w_trace := []; w_oof := false |}.
+     w_retry := []; w_script := script; w_trace := [];
+     w_bg := []; w_hs := {| hs_grp := 0; hs_max := 0; hs_cond := []; hs_count := 0; hs_sent := false; hs_acc := None |}; w_oof := false |}.
